@@ -307,3 +307,39 @@ pub fn pair_replies<'a>(
     }
     (pairs, orphans, open)
 }
+
+/// Inverse of `addr`: the class octet / segment.
+pub fn addr_class(a: &SocketAddr) -> u8 {
+    match a.ip() {
+        IpAddr::V4(ip) => {
+            let o = ip.octets();
+            if o[0] == 10 {
+                o[1]
+            } else {
+                255
+            }
+        }
+        IpAddr::V6(ip) => {
+            let s = ip.segments();
+            if s[0] == 0xfd00 {
+                s[1] as u8
+            } else {
+                255
+            }
+        }
+    }
+}
+
+/// Inverse of `addr`: the host number.
+pub fn addr_n(a: &SocketAddr) -> u32 {
+    match a.ip() {
+        IpAddr::V4(ip) => {
+            let o = ip.octets();
+            ((o[2] as u32) << 8) | o[3] as u32
+        }
+        IpAddr::V6(ip) => {
+            let s = ip.segments();
+            ((s[6] as u32) << 16) | s[7] as u32
+        }
+    }
+}
